@@ -29,6 +29,7 @@ RULE = (
     ' Round 8: `wake_payloads` sequences; `memstream` kind (real stream objects, the link dies with an OS error while the k-th command is written).'
     ' Round 9: `mqtt` kind (broker connection lost around a wake); `reconnect=with-exc` (the error itself leaves the async-with block).'
     ' Round 10: requests and reports for the parked key between parking and wake (enumerated).'
+    ' Round 12: `ack` (parked commands carry the ack flag); the application sends an internal command of every type to the sleepers between the failed flush and the retry.'
     ' Round 11: every internal message of the sleeping nodes that is not their wake announcement (e.g. the post-sleep notification) among the `between` events.'
 )
 ASSUMPTIONS = [
@@ -55,6 +56,7 @@ BETWEEN = tuple(f"0;255;3;0;{t};x\n" for t in range(0, 34) if t != 2) + tuple(f"
     # what the application does after the failed flush: asks the node for the state it failed to switch, sends other commands,
     # saves and reloads the registry (node objects are replaced)
     "@send-req", "@send-req-ack", "@send-internal", "@reload", "@save",
+) + tuple(f"@send-internal:{t}" for t in range(0, 34) if t != 18) + (
     # every internal message of the sleeping nodes themselves that is not their wake announcement (22 under 2.0/2.1, 32 under 2.2)
 ) + tuple(f"{n};255;3;0;{t};{p}\n" for n in (1, 2) for t in range(0, 34) if t not in (2, 22, 32) for p in ("500",))
 
@@ -77,6 +79,7 @@ def strategy(tier: str):
             "fault_class": st.sampled_from(("failed", "failed", "base", "read")),
             "reconnect": st.sampled_from((False, False, True, "with-exc")),
             "between": st.one_of(st.just([]), st.lists(st.sampled_from(BETWEEN), min_size=1, max_size=2)),
+            "ack": st.sampled_from((False, False, True)),
             "wake_payloads": st.one_of(st.just(["5"]), st.lists(st.sampled_from(("0", "1", "5", "7", "100", "65535", "500", "3")), min_size=1, max_size=4)),
         }
     )
@@ -116,6 +119,12 @@ def enumerate_cases(tier: str):
                 for reconnect in (False, True, "with-exc"):
                     yield {"version": version, "parked": [[1, 0, 0, "v0"], [1, 1, 0, "v1"], [2, 0, 0, "v2"]], "wakes": [1], "faults": faults,
                            "fault_class": "failed", "reconnect": reconnect, "between": [line]}
+    # the commands carry the ack flag (the application wants them echoed): the same law
+    for version in ("2.0", "2.1", "2.2"):
+        for faults in ([], [0], [1], [2], [0, 2], [1, 2], [0, 1, 3]):
+            for wakes in ([1], [1, 1], [1, 2, 1]):
+                yield {"version": version, "parked": [[1, 0, 0, "v0"], [1, 1, 0, "v1"], [1, 0, 2, "v2"], [2, 0, 0, "v3"]], "wakes": wakes, "faults": faults, "fault_class": "failed", "ack": True}
+                yield {"version": version, "parked": [[1, 0, 0, "v0"], [1, 1, 0, "v1"]], "wakes": wakes, "faults": faults, "fault_class": "base", "ack": True, "between": ["1;0;1;0;0;v0\n"]}
     versions = ("2.0", "2.1", "2.2") if tier == "thorough" else ("2.1", "2.2")
     max_wakes = 3 if tier == "thorough" else 2
     max_attempt = 6 if tier == "thorough" else 3
@@ -234,9 +243,11 @@ async def _app_event(name: str, gateway, parked: list, info: dict) -> Outcome | 
             status, value = await env.send(gateway, env.mk_message([n, c, 2, 1 if name.endswith("ack") else 0, t, ""]))
             if status == "leak":
                 return fail(f"leak:{env.exc_sig(value)}", f"send of a value request for ({n},{c},{t}) raised {value!r}")
-    elif name == "@send-internal":
+    elif name.startswith("@send-internal"):
+        # an internal command of the application to the sleeping nodes (heartbeat request by default; any type after a colon)
+        mtype = int(name.split(":")[1]) if ":" in name else 18
         for node in (1, 2):
-            await env.send(gateway, env.mk_message([node, 255, 3, 0, 18, ""]))
+            await env.send(gateway, env.mk_message([node, 255, 3, 0, mtype, ""]))
     else:
         import os
         import tempfile
@@ -466,14 +477,15 @@ def run_case(case: dict) -> Outcome:
     version = case["version"]
     wake_type = 32 if version == "2.2" else 22
     parked = case["parked"]
-    lines = {f"{n};{c};1;0;{t};{v}\n": n for n, c, t, v in parked}
+    ack = 1 if case.get("ack") else 0  # the application asks the nodes to echo its commands (ack flag set): nothing else changes
+    lines = {f"{n};{c};1;{ack};{t};{v}\n": n for n, c, t, v in parked}
     info = {"nontrivial": False, "faults_hit": 0}
 
     async def go() -> Outcome | None:
         gateway, transport = env.make_gateway(version)
         env.install_registry(gateway.nodes, REGISTRY)
         for n, c, t, v in parked:
-            status, value = await env.send(gateway, env.mk_message([n, c, 1, 0, t, v]))
+            status, value = await env.send(gateway, env.mk_message([n, c, 1, ack, t, v]))
             if status != "ok" or transport.attempts:
                 return Outcome(ok=True, classes=("diverged-elsewhere",))  # parking itself is C07's subject
         transport.fail_attempts = set(case["faults"])
